@@ -205,6 +205,7 @@ func TestVerif_C04_Namespaces(t *testing.T) {
 	rec := verifx.NewRecorder("C04", "namespaces", "rapid state machine on a fresh core with the namespaces root, n1/ and n1/n2/ (a recording secrets backend and the same policy in each): create a token in a generated namespace under a generated live parent of that namespace or of a namespace above it (or as root-created child / orphan), write its cubbyhole, obtain a leased secret in its namespace or in one below it, revoke (by id / by accessor / revoke-orphan issued in the token's namespace or one above it, or revoke-self), restart on the same storage; after every action every token of the model is probed in its own namespace (lookup-self, request to the recording backend, cubbyhole key in physical storage, lease entries); non-trivial = a successful revocation of a token whose subtree spans more than one namespace")
 	defer rec.Flush()
 	rapid.Check(t, func(rt *rapid.T) {
+		defer recoverWedged(rec)
 		w := newC04nsWorld(t, rapid.Bool().Draw(rt, "transactionalStorage"))
 		defer func() { w.tc.shutdown() }()
 		nontrivial := false
